@@ -223,11 +223,24 @@ func SecondStartSweep(bin string, base string, every int, emit func(Ev)) error {
 			lastSockUnlink = c.N
 		}
 	}
+	// from which call on the first start has committed itself to being the run of the file: with the address lock
+	// (openat of <socket>.lock, flock, connect, unlink, bind) that is the connect made under the lock; without a lock
+	// file in the listing it is the call after the probe
+	commitIdx, lockOpen := connectIdx+1, 0
+	for _, c := range lst.Calls {
+		if lockOpen == 0 && strings.HasSuffix(c.Path, ".sock.lock") {
+			lockOpen = c.N
+		}
+		if lockOpen > 0 && c.N > lockOpen && c.Name == "connect" {
+			commitIdx = c.N
+			break
+		}
+	}
 	if connectIdx == 0 || bindIdx == 0 {
 		return fmt.Errorf("no connect/bind on the status socket seen in the listing run (%d calls)", len(lst.Calls))
 	}
 	for k := 1; k <= len(lst.Calls); k++ {
-		window := k > connectIdx && k <= bindIdx
+		window := k > connectIdx && k <= bindIdx+1
 		if !window && (k-1)%every != 0 {
 			continue
 		}
@@ -236,19 +249,47 @@ func SecondStartSweep(bin string, base string, every int, emit func(Ev)) error {
 		var outB string
 		var histAtB, histAfterB int
 		var statusDuring string
+		// the second start may have to wait for the first one (address lock): if it has not ended after 4 s the first
+		// start is released and the second one is awaited afterwards
+		blocked := false
+		doneB := make(chan struct{})
 		onPark := func() {
 			statusDuring, _ = e.latest()
 			histAtB = len(e.histFiles())
-			c := exec.Command(bin, "start", e.file)
+			// (through a shell that leaves the exit status in a file: the supervisor's wait4(-1) may reap this child)
+			rcFile, outFile := filepath.Join(e.base, "b.rc"), filepath.Join(e.base, "b.out")
+			c := exec.Command("sh", "-c", fmt.Sprintf("%s start %s > %s 2>&1; echo $? > %s.tmp; mv %s.tmp %s", bin, e.file, outFile, rcFile, rcFile, rcFile))
 			c.Env = e.env
-			o, err := c.CombinedOutput()
-			exitB, outB = exitCode(err), trunc(string(o), 300)
-			histAfterB = len(e.histFiles())
+			c.Start()
+			go func() {
+				for {
+					if b, err := os.ReadFile(rcFile); err == nil {
+						fmt.Sscanf(string(b), "%d", &exitB)
+						break
+					}
+					time.Sleep(5 * time.Millisecond)
+				}
+				o, _ := os.ReadFile(outFile)
+				outB = trunc(string(o), 300)
+				histAfterB = len(e.histFiles())
+				close(doneB)
+			}()
+			select {
+			case <-doneB:
+			case <-time.After(4 * time.Second):
+				blocked = true
+			}
 		}
 		res, err := superviseBoth(argv(e), e, sockName(e), k, onPark, devnull)
 		if err != nil {
 			e.cleanup()
 			return fmt.Errorf("placement %d: %w", k, err)
+		}
+		select {
+		case <-doneB:
+		case <-time.After(30 * time.Second):
+			e.cleanup()
+			return fmt.Errorf("placement %d: the second start never ends", k)
 		}
 		by := execsByReq(e.markerLines())
 		reqs := []string{}
@@ -256,11 +297,34 @@ func SecondStartSweep(bin string, base string, every int, emit func(Ev)) error {
 			reqs = append(reqs, r)
 		}
 		sort.Strings(reqs)
+		// interleaved: a line of one run lies between the first and the last line of the other run
+		interleaved := false
+		first, last := map[string]int{}, map[string]int{}
+		for i, l := range e.markerLines() {
+			if j := strings.Index(l, ":"); j >= 0 {
+				r := l[j+1:]
+				if _, ok := first[r]; !ok {
+					first[r] = i
+				}
+				last[r] = i
+			}
+		}
+		for a := range first {
+			for b := range first {
+				if a != b && first[b] > first[a] && first[b] < last[a] {
+					interleaved = true
+				}
+			}
+		}
 		statusEnd, errEnd := e.latest()
+		if blocked {
+			// the first start went on while the second one waited: files recorded by a refused start = files that belong to no run that executed
+			histAfterB, histAtB = len(e.histFiles())-len(reqs), 0
+		}
 		c := lst.Calls[k-1]
 		emit(Ev{"kind": "second", "k": k, "ncalls": len(lst.Calls), "sys": c.Name, "path": filepath.Base(c.Path),
-			"afterProbe": k > connectIdx, "afterBind": k > bindIdx, "afterShutdown": lastSockUnlink > 0 && k >= lastSockUnlink,
-			"runsThatExecuted": len(reqs), "exitA": res.ExitCode, "exitB": exitB, "histNewDuringB": histAfterB - histAtB,
+			"afterProbe": k > connectIdx, "committed": k >= commitIdx, "afterBind": k > bindIdx, "afterShutdown": lastSockUnlink > 0 && k >= lastSockUnlink,
+			"runsThatExecuted": len(reqs), "secondBlocked": blocked, "interleaved": interleaved, "exitA": res.ExitCode, "exitB": exitB, "histNewDuringB": histAfterB - histAtB,
 			"histFiles": len(e.histFiles()), "statusWhileParked": statusDuring, "statusEnd": statusEnd, "statusEndErr": errEnd, "outB": outB})
 		e.cleanup()
 	}
